@@ -510,6 +510,28 @@ pub fn explore_dfs<Sys: System>(sys: &Sys, lim: &Limits) -> Report {
 		capped: bool,
 		sample: Option<(String, Vec<String>)>,
 	}
+	impl Acc {
+		fn new() -> Self {
+			Acc { states: 0, transitions: 0, leaves: 0, exempt: 0, max_depth: 0, bag: VioBag::new(), capped: false, sample: None }
+		}
+		fn absorb(&mut self, o: Acc) {
+			self.states += o.states;
+			self.transitions += o.transitions;
+			self.leaves += o.leaves;
+			self.exempt += o.exempt;
+			self.max_depth = self.max_depth.max(o.max_depth);
+			self.capped |= o.capped;
+			let t = self.bag.total + o.bag.total;
+			self.bag.merge(o.bag);
+			self.bag.total = t;
+			if self.sample.is_none() {
+				self.sample = o.sample;
+			}
+		}
+	}
+	fn acc_capped_hint(t0: &Instant, lim: &Limits) -> bool {
+		t0.elapsed() > lim.wall
+	}
 	fn rec<Sys: System>(
 		sys: &Sys,
 		lim: &Limits,
@@ -534,8 +556,55 @@ pub fn explore_dfs<Sys: System>(sys: &Sys, lim: &Limits) -> Report {
 			acc.leaves += 1;
 			return;
 		}
+		// deviation-bounded systems are long chains with side branches: a prefix split alone leaves
+		// almost all of the work in the one item that continues the chain. While deviation budget is
+		// left, the children of a node are explored as parallel tasks (work stealing), each with its
+		// own accumulator, merged in child order.
+		let acts = sys.actions(s, depth);
+		if lim.max_dev != u32::MAX && dev < lim.max_dev && acts.iter().filter(|(_, c)| dev + *c as u32 <= lim.max_dev).count() > 1 {
+			let base_path: &Vec<Sys::Act> = path;
+			let parts: Vec<(Acc, bool)> = acts
+				.par_iter()
+				.filter(|(_, cost)| dev + *cost as u32 <= lim.max_dev)
+				.map(|(a, cost)| {
+					let mut a2 = Acc::new();
+					a2.capped = acc_capped_hint(t0, lim);
+					let nd = dev + *cost as u32;
+					let (ns, fail, ex) = match sys.step(s, a) {
+						Step::Next(n) => (Some(n), None, false),
+						Step::Exempt(n, _) => (Some(n), None, true),
+						Step::Violation(f) => (None, Some(f), false),
+						Step::ViolationContinue(n, f) => (Some(n), Some(f), false),
+						Step::Prune => return (a2, false),
+					};
+					a2.transitions += 1;
+					a2.exempt += ex as u64;
+					let mut p2 = base_path.clone();
+					p2.push(a.clone());
+					if let Some(f) = fail {
+						a2.bag.push(Violation { system: sys.name(), init: init.to_string(), path: p2.iter().map(|a| sys.show_act(a)).collect(), failure: f, deviations: nd });
+					}
+					let mut fresh = false;
+					if let Some(ns) = ns {
+						a2.states += 1;
+						fresh = true;
+						rec(sys, lim, t0, &ns, depth + 1, nd, init, &mut p2, &mut a2);
+					}
+					(a2, fresh)
+				})
+				.collect();
+			let mut any = false;
+			for (a2, fresh) in parts {
+				any |= fresh;
+				acc.absorb(a2);
+			}
+			if !any {
+				acc.leaves += 1;
+			}
+			return;
+		}
 		let mut fresh = 0;
-		for (a, cost) in sys.actions(s, depth) {
+		for (a, cost) in acts {
 			let nd = dev + cost as u32;
 			if nd > lim.max_dev {
 				continue;
@@ -577,16 +646,7 @@ pub fn explore_dfs<Sys: System>(sys: &Sys, lim: &Limits) -> Report {
 	let accs: Vec<Acc> = work
 		.par_iter()
 		.map(|it| {
-			let mut acc = Acc {
-				states: 0,
-				transitions: 0,
-				leaves: 0,
-				exempt: 0,
-				max_depth: 0,
-				bag: VioBag::new(),
-				capped: false,
-				sample: None,
-			};
+			let mut acc = Acc::new();
 			let mut path = it.path.clone();
 			rec(sys, lim, &t0, &it.s, it.depth, it.dev, &it.init, &mut path, &mut acc);
 			acc
